@@ -3,6 +3,7 @@ groupby-aggregate is modelled at the set level in prelude_groupby)."""
 from collections import OrderedDict
 
 from .arr import SymArr, as_array, new_array
+from .core import Proxy  # noqa
 from .core import Unsupported, ctx, is_sym
 
 
@@ -10,7 +11,7 @@ def _use(name):
     ctx().used_prelude.add("pandas." + name)
 
 
-class SymSeries:
+class SymSeries(Proxy):
     def __init__(self, values, name=None, index=None):
         self.values = as_array(values) if not isinstance(values, SymArr) else values
         self.name = name
@@ -39,7 +40,7 @@ class SymSeries:
         raise Unsupported("Series indexing with %r" % type(key))
 
 
-class SymDataFrame:
+class SymDataFrame(Proxy):
     """pd.DataFrame(dict_of_columns[, columns=order]): named 1-D columns of one common length."""
 
     def __init__(self, data=None, columns=None, index=None):
@@ -93,7 +94,48 @@ class SymDataFrame:
         return int(v)
 
     def dropna(self):
-        raise Unsupported("DataFrame.dropna")
+        """Rows without a NaN in any column, in order: row t of the result is source row src(t)
+        (src strictly increasing); a source row is kept iff none of its entries is NaN."""
+        import z3
+
+        from . import spec as S
+        from .arr import havoc_array, new_array
+        from .core import SymNum, and_, implies, not_, or_, to_z3
+
+        _use("DataFrame.dropna")
+        c = ctx()
+        n = self.nrows
+        m = c.fresh("nkept", "int")
+        c.assume(and_(m >= 0, m <= n))
+        src_uf = z3.Function(c.fresh_name("dropna_src"), z3.IntSort(), z3.IntSort())
+        from .arr import _storage_ids
+
+        leaf = next(_storage_ids)
+
+        def src(t):
+            c2 = ctx()
+            c2.leaf_touch(leaf, (t,))
+            return SymNum(src_uf(to_z3(t)), "int")
+
+        cols = list(self.cols.items())
+
+        def isnan_row(p):
+            return or_(*[a.nan_at(p) for _, a in cols]) if any(a.storage.nan is not None for _, a in cols) else False
+
+        S.assume(S.Forall((m,), lambda t: and_(src(t) >= 0, src(t) < n, not_(isnan_row(src(t)))), name="dropna.kept_rows_are_complete_source_rows"))
+        S.assume(S.Forall((m, m), lambda s_, t: implies(s_ < t, src(s_) < src(t)), name="dropna.order_preserved"))
+        pos_uf = z3.Function(c.fresh_name("dropna_pos"), z3.IntSort(), z3.IntSort())
+        pos = lambda p: SymNum(pos_uf(to_z3(p)), "int")
+        S.assume(S.Forall((n,), lambda p: implies(not_(isnan_row(p)), and_(pos(p) >= 0, pos(p) < m, src(pos(p)) == p)), name="dropna.every_complete_row_is_kept"))
+        out = SymDataFrame({})
+        out.nrows = m
+        for k, a in cols:
+            snap = a.snapshot()
+            out.cols[k] = new_array((m,), lambda idx, snap=snap: snap(src(idx[0])), a.kind)
+        out.dropna_src = src
+        out.dropna_of = self
+        c.ghost.setdefault("dropna", []).append(out)
+        return out
 
     def groupby(self, key):
         from .prelude_groupby import SymGroupBy
@@ -101,7 +143,7 @@ class SymDataFrame:
         return SymGroupBy(self, key)
 
 
-class SymRowFrame:
+class SymRowFrame(Proxy):
     """pd.DataFrame(2-D array with ONE row, index=[0], columns=names)."""
 
     def __init__(self, row, names):
